@@ -23,7 +23,7 @@ from checks.c05 import payload, BOUNDARY
 PROP = "C14"
 LEVEL = "exploration"
 RULE = ("seeded scenarios: populated parent-closed topology of 5..16 nodes over levels 0..4 (several per level), per-node "
-        "allow_multicast on/off, at most one relaying node (levels 1..3, sometimes 4), MCU jitter, sometimes a failed unicast (absent neighbour) right before the multicast, a third of the nodes constructed with another address (any level) and re-addressed before start, a relay whose slow application has 5/6 unread messages queued, bursts of 2-3 multicasts (same type or not) to applications that read late, two nodes multicasting 0-3 ms apart (short or fragmented, equal frame-id counters in half of these), frame-id counters seeded per node (wrap-around included); 15 % of the runs lossy with only the safety clauses (nothing garbled, nobody else, nothing acknowledged); 1..3 multicasts from every sender class (master, "
+        "allow_multicast on/off, at most one relaying node (levels 1..3, sometimes 4), MCU jitter, sometimes a failed unicast (absent neighbour) right before the multicast, a third of the nodes constructed with another address (any level) and re-addressed before start, a relay whose slow application has 5/6 unread messages queued, bursts of 2-3 multicasts (same type or not) to applications that read late, two nodes multicasting 0-3 ms apart (short or fragmented, equal frame-id counters in half of these), a fragmented multicast that loses its last fragment (targeted fault) followed by a complete one, a multicast and a neighbour's unicast waiting together in the radio of a busy node, frame-id counters seeded per node (wrap-around included); 15 % of the runs lossy with only the safety clauses (nothing garbled, nobody else, nothing acknowledged); 1..3 multicasts from every sender class (master, "
         "first child 0o1, other level-1 node, deeper levels) x target level in {default, 0..4}, lengths 0..144 (boundary "
         "biased), types 0..127. Non-trivial: the target level holds at least one other listening node; distinct = distinct "
         "abstract event sequences")
@@ -37,7 +37,7 @@ CLAUSES = {"who": "received once by every other listening node of level L that a
            "unacked": "transmitted without requesting acknowledgements; no receiver acknowledges", "relay": "re-broadcast once to the next level, still queued locally",
            "deaf": "allow_multicast off: not listening on the shared level address"}
 SHRINK_KEYS = ("casts",)
-PROBES = ["relay_queue_full", "burst_met_slow_readers", "readdressed", "near_simultaneous_multicasts"]
+PROBES = ["relay_queue_full", "burst_met_slow_readers", "readdressed", "near_simultaneous_multicasts", "fault:last_fragment_lost", "multicast_waited_ahead_of_a_unicast"]
 CHUNK = 8
 MAX_INCONCLUSIVE = 0.02
 
@@ -149,7 +149,29 @@ def make(i, base_seed, tier):
             for nd in nodes:
                 if nd["addr"] in (a_, b_):
                     nd["fid_duo"] = fid_
-    senders = {c["src"] for c in casts if c.get("kind") != "failed_unicast"} | {c["src2"] for c in casts if c.get("kind") == "duo"}
+    zr = stream(seed, "ext3")
+    if relay_node is None and len(topo) >= 2 and zr.random() < 0.2:
+        # (stale) a fragmented multicast loses its LAST fragment on the way to one (or every) receiver - an explicit, targeted fault -
+        # and a complete fragmented multicast follows, from the same sender or another one: it must arrive
+        s1 = zr.choice(topo)
+        lv_ = zr.choice([netref.level(x) for x in topo if x != s1])
+        s2 = zr.choice([x for x in topo if x == s1 or netref.level(x) != lv_ or True])
+        tA = zr.randint(0, 127)
+        tB = zr.choice([t for t in range(0, 128) if t != tA])
+        casts.append({"kind": "stale", "src": s1, "src2": s2, "level": lv_, "victim": zr.choice([None] + [x for x in topo if netref.level(x) == lv_ and x != s1]),
+                      "mA": {"len": zr.choice([25, 40, 60, 100]), "type": tA, "seed": zr.getrandbits(20)},
+                      "mB": {"len": zr.choice([25, 40, 60, 100]), "type": tB, "seed": zr.getrandbits(20)}})
+    if relay_node is None and zr.random() < 0.2:
+        # (behind) a node's application is busy for a while; a multicast to its level arrives, then a unicast from its parent or one of its
+        # children: both wait in its radio when it polls again
+        cand = [(x, n_) for x in topo for n_ in topo if x != n_ and (netref.parent(x) == n_ or netref.parent(n_) == x) and x != 0]
+        if cand:
+            x_, n_ = zr.choice(cand)
+            others = [y for y in topo if y != x_]
+            casts.append({"kind": "behind", "src": zr.choice(others), "level": netref.level(x_), "target": x_, "neighbour": n_, "busy_ms": zr.choice([8, 15, 30]),
+                          "m": {"len": zr.choice([0, 5, 24]), "type": zr.randint(0, 127), "seed": zr.getrandbits(20)},
+                          "u": {"len": zr.choice([0, 5, 24]), "type": zr.randint(0, 64), "seed": zr.getrandbits(20)}, "more": zr.randint(0, 1)})
+    senders = {c["src"] for c in casts if c.get("kind") != "failed_unicast"} | {c["src2"] for c in casts if c.get("kind") in ("duo", "stale")}
     for nd in nodes:
         if nd["addr"] in senders or nd["addr"] == 0:
             nd["allow"] = True   # multicast() on a node that has the feature switched off is not generated
@@ -241,6 +263,16 @@ def _run(scn, w, net, res):
             if res.violations:
                 break
             continue
+        if m.get("kind") == "stale":
+            _stale(m, w, net, res, allow, addrs)
+            if res.violations:
+                break
+            continue
+        if m.get("kind") == "behind":
+            _behind(m, w, net, res, allow, addrs)
+            if res.violations:
+                break
+            continue
         src = m["src"]
         L = netref.level(src) if m["level"] is None else m["level"]
         data = payload(m["seed"], m["len"])
@@ -314,6 +346,95 @@ def _run(scn, w, net, res):
     res.sample = {"topology": [oct(nd["addr"]) for nd in scn["nodes"]], "deaf": [oct(nd["addr"]) for nd in scn["nodes"] if not nd["allow"]],
                   "relay": oct(relay_node) if relay_node is not None else None,
                   "casts": [(oct(m["src"]), m.get("kind", "multicast"), m.get("level"), m.get("len"), m.get("type")) for m in scn["casts"]]}
+
+
+def _stale(m, w, net, res, allow, addrs):
+    """explicit fault: the LAST fragment of multicast A is lost (for one receiver or all); the complete multicast B that follows must arrive"""
+    sim = w.sim
+    if m["src"] not in addrs or m["src2"] not in addrs or not allow.get(m["src"], True) or not allow.get(m["src2"], True) or w.air.plan.rules:
+        return      # (the lossy configuration keeps to its own clauses)
+    A = (m["mA"]["type"], payload(m["mA"]["seed"], m["mA"]["len"]))
+    B = (m["mB"]["type"], payload(m["mB"]["seed"], m["mB"]["len"]))
+    rule = {"src": "n%s" % m["src"], "ptype": 150, "pres": A[0], "ack": False}
+    if m.get("victim") is not None:
+        rule["dst"] = "n%s" % m["victim"]
+    marks = {k: len(nc.log) for k, nc in net.nodes.items()}
+    w.air.plan.rules.append(rule)
+    fired0 = w.air.plan.fired.get("pkt_drop", 0)
+    c = net.call(m["src"], "multicast", lambda node: node.multicast(A[1], A[0], m["level"]), timeout=5000 * MS)
+    net.wait_quiet(quiet=12 * MS, timeout=3000 * MS)
+    w.air.plan.rules.remove(rule)
+    if not c.done or c.exc is not None:
+        res.add("who", {"kind": "multicast_raised_or_hung", "exc": type(c.exc).__name__}, "multicast() %s: %r" % ("raised" if c.done else "did not return", c.exc))
+        return
+    if w.air.plan.fired.get("pkt_drop", 0) == fired0:
+        return        # nobody was in reach of that fragment: nothing to heal
+    sim.count("fault:last_fragment_lost")
+    a0 = len(w.air.trace)
+    c = net.call(m["src2"], "multicast", lambda node: node.multicast(B[1], B[0], m["level"]), timeout=5000 * MS)
+    net.wait_quiet(quiet=12 * MS, timeout=3000 * MS)
+    if not c.done or c.exc is not None:
+        res.add("who", {"kind": "multicast_raised_or_hung", "exc": type(c.exc).__name__}, "multicast() %s: %r" % ("raised" if c.done else "did not return", c.exc))
+        return
+    res.nontrivial = True
+    sig = {"stale": True, "same_sender": m["src"] == m["src2"]}
+    for k, nc in net.nodes.items():
+        got = [(e[1], e[3], e[4]) for e in nc.log[marks[k]:]]
+        for g in got:
+            if g not in ((m["src"], A[0], A[1]), (m["src2"], B[0], B[1])):
+                res.add("who", dict(sig, kind="garbled"), "node %o dequeued from %o type %d %d bytes after a multicast had lost its last fragment; sent were %d and %d bytes"
+                        % (k, g[0], g[1], len(g[2]), len(A[1]), len(B[1])))
+                return
+        nB = got.count((m["src2"], B[0], B[1]))
+        is_target = k != m["src2"] and allow.get(k, True) and netref.level(k) == m["level"]
+        # (multicasts are unacknowledged: a slow node's 3-deep RX FIFO may overflow - only what its radio stored in full is owed)
+        frames = [t for t in w.air.trace[a0:] if not t["ack"] and t["src"] == "n%s" % m["src2"]]
+        complete = len(frames) == len(netref.fragment(m["src2"], 0o100, 0, B[0], B[1])) and all(("n%s" % k, "stored") in [tuple(x) for x in t["rx"]] for t in frames)
+        if is_target and nB > 1 or (is_target and nB != 1 and complete and len(nc.node.queue) < nc.node.queue.max_queue_size):
+            res.add("who", dict(sig, kind="missed_after_lost_fragment" if nB == 0 else "duplicate"),
+                    "node %o (level %d) dequeued the complete %d-byte multicast from %o %d times; the multicast before it (from %o) had lost its last fragment%s"
+                    % (k, m["level"], len(B[1]), m["src2"], nB, m["src"], "" if m.get("victim") is None else " on the way to node %o" % m["victim"]))
+            return
+        if not is_target and nB:
+            res.add("who", dict(sig, kind="wrong_receiver"), "node %o (level %d) dequeued the multicast sent to level %d" % (k, netref.level(k), m["level"]))
+            return
+
+
+def _behind(m, w, net, res, allow, addrs):
+    """a multicast and then a neighbour's unicast wait in the radio of a node whose application was busy: both are delivered"""
+    sim = w.sim
+    x, n_ = m["target"], m["neighbour"]
+    if x not in addrs or n_ not in addrs or m["src"] not in addrs or not allow.get(x, True) or not allow.get(m["src"], True) or w.air.plan.rules:
+        return
+    import circuitpython_nrf24l01.network.mixins as mx_
+    from circuitpython_nrf24l01.network.structs import RF24NetworkHeader, RF24NetworkFrame
+    M = (m["m"]["type"], payload(m["m"]["seed"], m["m"]["len"]))
+    U = (m["u"]["type"], payload(m["u"]["seed"], m["u"]["len"]))
+    mark = len(net.nodes[x].log)
+    a0 = len(w.air.trace)
+    busy = net.post(x, "busy", lambda node: mx_.time.sleep(m["busy_ms"] / 1000))
+    sim.advance(1 * MS)
+    cs = [net.call(m["src"], "multicast", lambda node: node.multicast(M[1], M[0], m["level"]), timeout=5000 * MS)]
+    for k_ in range(1 + m.get("more", 0)):
+        cs.append(net.call(n_, "write", lambda node, k_=k_: node.write(RF24NetworkFrame(RF24NetworkHeader(x, U[0] + k_), U[1])), timeout=5000 * MS))
+    in_time = not busy.done
+    net.wait(busy, timeout=5000 * MS)
+    net.wait_quiet(quiet=12 * MS, timeout=3000 * MS)
+    for c in cs:
+        if not c.done or c.exc is not None:
+            res.add("who", {"kind": "multicast_raised_or_hung", "exc": type(c.exc).__name__}, "%s %s: %r" % (c.name, "raised" if c.done else "did not return", c.exc))
+            return
+    if in_time:
+        sim.count("multicast_waited_ahead_of_a_unicast")
+    res.nontrivial = True
+    got = [(e[1], e[3], e[4]) for e in net.nodes[x].log[mark:]]
+    n = len([e for e in net.nodes[x].log[mark:] if (e[1], e[2], e[3], e[4]) == (m["src"], 0o100, M[0], M[1])])
+    stored = [t for t in w.air.trace[a0:] if not t["ack"] and t["src"] == "n%s" % m["src"] and len(t["data"]) >= 8 and (t["data"][2] | (t["data"][3] << 8)) == 0o100
+              and ("n%s" % x, "stored") in [tuple(r_) for r_ in t["rx"]]]
+    if n > 1 or (n == 0 and stored and len(net.nodes[x].node.queue) < net.nodes[x].node.queue.max_queue_size):
+        res.add("who", {"kind": "missed" if n == 0 else "duplicate", "behind": True},
+                "node %o (level %d) was busy for %d ms; the multicast from %o and %d unicast(s) from its neighbour %o waited in its radio; it dequeued the multicast %d times (all it dequeued: %r)"
+                % (x, m["level"], m["busy_ms"], m["src"], 1 + m.get("more", 0), n_, n, [(oct(g[0]), g[1], len(g[2])) for g in got]))
 
 
 def _duo(m, w, net, res, allow, addrs):
